@@ -12,6 +12,8 @@
 from ..facts import strip, callee_name, const_value, loc, root_ref, canon
 from ..ir import pretty
 from .r5_grow import FIELD_OF, ORDER
+from . import r2_argcheck as r2
+from ..run import AnalysisBroken
 
 CAPFIELD = {'LUSUP': 'nzlumax', 'UCOL': 'nzumax', 'LSUB': 'nzlmax', 'USUB': 'nzumax'}
 
@@ -475,3 +477,134 @@ def rollback_mark_rule(chk, cid, prog, p, cfgname):
                     'the rollback mark (line %d) is taken before xsup/supno/xlsub/xlusup/xusub are allocated from the workspace: a retry releases and re-uses '
                     'their memory while they are still in use' % marks[0].line, cfgname=cfgname)
     return 1
+
+
+STATUS_NONNEG = ('LUWorkInit',)      # status-returning helpers whose results are sums of sizes (0 = success, > 0 = failure)
+
+
+def failure_status_rule(chk, cid, prog, p, cfgname):
+    """`info > n` is how a caller tells "out of space" from a zero pivot at column info <= n, and `if ( *info ) return;` in ?gstrf is the only test
+    of ?LUMemInit's result: a failure return must be strictly greater than n for every n >= 0 (n = 0 and nnz = 0 make every size term zero).
+    Each return of ?LUMemInit other than `return 0` and the lwork == -1 size answers must be a sum that contains n and an addend that is
+    positive by construction: a positive constant, a maximum with a positive constant, or the non-zero status of a size-returning helper."""
+    f = prog.func(p + 'LUMemInit')
+    chk.saw(unit=f.unit, func=f.unit + ':' + f.name)
+    nid = {nm: i for (nm, i, t) in f.params}.get('n')
+    lw = {nm: i for (nm, i, t) in f.params}.get('lwork')
+    if nid is None or lw is None:
+        raise AnalysisBroken('%s: parameters n / lwork not found' % f.name)
+
+    def addends(e):
+        e = strip(e)
+        if e.k == 'Binary' and e.a['op'] == '+':
+            return addends(e.c[0]) + addends(e.c[1])
+        return [e]
+
+    status_vars = set()
+    for x in f.body.walk():
+        if x.k == 'Assign' and x.a['op'] == '=' and strip(x.c[0]).k == 'Ref':
+            r = strip(x.c[1])
+            if r.k == 'Call' and (callee_name(r) or '').endswith(STATUS_NONNEG):
+                status_vars.add(strip(x.c[0]).a.get('id'))
+
+    def positive(e, guards):
+        e = strip(e)
+        v = const_value(e)
+        if v is not None:
+            return v >= 1
+        if e.k == 'Cond':       # SUPERLU_MAX(a, b)
+            return positive(e.c[1], guards) and positive(e.c[2], guards) or any(
+                (const_value(a) or 0) >= 1 and _is_max(e) for a in (e.c[1], e.c[2]))
+        if e.k == 'Ref' and e.a.get('id') in status_vars:
+            return any(pos and strip(c).k == 'Ref' and strip(c).a.get('id') == e.a.get('id') for (c, pos) in guards)
+        return False
+
+    def _is_max(e):
+        c = strip(e.c[0])
+        if c.k != 'Binary' or c.a['op'] not in ('>', '<', '>=', '<='):
+            return False
+        a, b = canon(c.c[0]), canon(c.c[1])
+        t, u = canon(e.c[1]), canon(e.c[2])
+        return (c.a['op'] in ('>', '>=') and (a, b) == (t, u)) or (c.a['op'] in ('<', '<=') and (a, b) == (u, t))
+
+    n = 0
+
+    def walk(x, guards):
+        nonlocal n
+        if x.k == 'If':
+            walk(x.c[1], guards + [(x.c[0], True)])
+            if len(x.c) > 2:
+                walk(x.c[2], guards + [(x.c[0], False)])
+            return
+        if x.k == 'Return' and x.c:
+            if const_value(x.c[0]) == 0:
+                return
+            if any(pos and strip(c).k == 'Binary' and strip(c).a['op'] == '==' and strip(strip(c).c[0]).k == 'Ref'
+                   and strip(strip(c).c[0]).a.get('id') == lw and const_value(strip(c).c[1]) == -1 for (c, pos) in guards):
+                return          # the size answer of a query, not a failure status
+            n += 1
+            inst = '%s:failure-status-exceeds-n@%d' % (f.name, n)
+            ads = addends(x.c[0])
+            has_n = any(strip(a).k == 'Ref' and strip(a).a.get('id') == nid for a in ads)
+            pos = [a for a in ads if positive(a, guards)]
+            if has_n and pos:
+                chk.ok(cid, inst, sample='`%s`: n + %s (positive by construction) + non-negative sizes' % (pretty(x)[:70], pretty(pos[0])[:40]))
+            else:
+                chk.violate(cid, inst, loc(f, x), f.name,
+                            'failure return `%s` is not provably greater than n: %s. For n = 0 and nnz = 0 every size term is zero, the status is 0, '
+                            'and ?gstrf (`if ( *info ) return;`) continues with work arrays that were never set up'
+                            % (pretty(x)[:80], 'no addend n' if not has_n else 'no addend is positive by construction'), cfgname=cfgname)
+            return
+        for c in x.c:
+            walk(c, guards)
+    walk(f.body, [])
+    if n < 3:
+        raise AnalysisBroken('%s: %d failure returns found, expected >= 3' % (f.name, n))
+    return n
+
+
+def retry_termination_rule(chk, cid, prog, p, cfgname):
+    """The retry loop of ?LUMemInit halves its guesses and gives up through a test inside the loop.  Halving has the fixpoint 0, where every
+    retry reproduces the same state, so the give-up test must hold at 0 whatever the other quantities are (annz = 0 is a legal input):
+    a disjunct `v == 0`, `v <= e` or `v < c` with c >= 1 on a halved variable."""
+    f = prog.func(p + 'LUMemInit')
+    n = 0
+    for w in f.body.walk():
+        if w.k != 'While':
+            continue
+        body = w.c[1]
+        halved = {strip(x.c[0]).a.get('id'): strip(x.c[0]).a.get('name') for x in body.walk()
+                  if x.k == 'Assign' and x.a['op'] == '/=' and strip(x.c[0]).k == 'Ref' and (const_value(x.c[1]) or 0) >= 2}
+        if not halved:
+            continue
+        exits = [x for x in body.walk() if x.k == 'If' and any(y.k == 'Return' for y in x.c[1].walk())]
+        n += 1
+        inst = '%s:retry-loop-gives-up-at-the-fixpoint@%d' % (f.name, n)
+        ok = False
+        for ex in exits:
+            for conj in r2.dnf(ex.c[0], True):
+                if len(conj) != 1:
+                    continue
+                (a, pol) = conj[0]
+                a = strip(a)
+                if a.k != 'Binary':
+                    continue
+                op = a.a['op']
+                if not pol:
+                    op = {'==': '!=', '!=': '==', '<': '>=', '>=': '<', '>': '<=', '<=': '>'}.get(op, op)
+                l, r = strip(a.c[0]), strip(a.c[1])
+                if l.k == 'Ref' and l.a.get('id') in halved:
+                    rv = const_value(r)
+                    if (op == '==' and rv == 0) or (op == '<' and rv is not None and rv >= 1) or (op == '<=' and (rv is None or rv >= 0)):
+                        # v <= e with an unknown non-negative e (a count) holds at v = 0
+                        ok = True
+        if ok:
+            chk.ok(cid, inst, sample='halved: %s; a give-up test holds when the guess has reached 0' % sorted(halved.values()))
+        else:
+            chk.violate(cid, inst, loc(f, w), f.name,
+                        'the retry loop halves %s but none of its give-up tests (%s) holds once the guess is 0: with nnz = 0 (annz = 0) and a '
+                        'workspace that is exactly full the loop repeats the same failing attempt forever'
+                        % (sorted(halved.values()), '; '.join(pretty(e.c[0])[:50] for e in exits) or 'none'), cfgname=cfgname)
+    if n < 1:
+        raise AnalysisBroken('%s: retry loop not found' % f.name)
+    return n
